@@ -446,3 +446,52 @@ func H_C02_repeat() {
 	vfReach("checked")
 	vfAssert(vfLive() == 0, "no goroutine is left running")
 }
+
+// H_C02_refNames: the name in an extends / import clause - in the parsed source itself or
+// in a file it reaches through such a clause - and the name given to GetTemplate are
+// arbitrary strings of 0..2 bytes (empty included; written as an interpreted or a raw
+// string literal): loading is total - a template or an error, never a panic, no goroutine
+// left - and an unknown name is an error that names the referring template.
+//
+//gosym:reach parsed,rejected
+func H_C02_refNames() {
+	n := ndString("name", 2)
+	how := ndChoice("how", 6)
+	quote := `"`
+	if ndBool("raw") {
+		quote = "`"
+	}
+	for i := 0; i < len(n); i++ {
+		vfAssume(n[i] != '"' && n[i] != '`' && n[i] != '\\' && n[i] != '\n' && n[i] != 0)
+	}
+	lit := quote + n + quote
+	set := c02Set(0)
+	l := set.loader.(*InMemLoader)
+	l.Set("/a", "A{{ block b() }}b{{ end }}")
+	var err error
+	var t *Template
+	switch how {
+	case 0:
+		t, err = c02Check(set, "/d/t.jet", `{{extends `+lit+`}}`)
+	case 1:
+		t, err = c02Check(set, "/d/t.jet", `{{import `+lit+`}}x`)
+	case 2:
+		l.Set("/d/mid.jet", `{{extends `+lit+`}}`)
+		t, err = c02Check(set, "/d/t.jet", `{{extends "mid.jet"}}`)
+	case 3:
+		l.Set("/d/lib.jet", `{{import `+lit+`}}`)
+		t, err = set.GetTemplate("/d/lib.jet")
+		vfAssert(vfLive() == 0, "no goroutine is left running after GetTemplate")
+	case 4:
+		t, err = set.GetTemplate(n)
+		vfAssert(vfLive() == 0, "no goroutine is left running after GetTemplate")
+	default:
+		t, err = c02Check(set, "/d/t.jet", `{{include `+lit+`}}`)
+	}
+	if err != nil {
+		vfReach("rejected")
+		return
+	}
+	vfReach("parsed")
+	vfAssert(t != nil, "without an error a template is returned")
+}
